@@ -30,6 +30,21 @@ fn main() {
             }
             std::process::exit(if ms.is_empty() { 0 } else { 1 });
         }
+        Some("dump") => {
+            // kharness dump <prop> <seed> <n> <dir>: write the first n generated scenarios as files
+            let prop = &args[2];
+            let seed: u64 = args[3].parse().unwrap();
+            let n: u64 = args[4].parse().unwrap();
+            let gen = check::generator(prop).expect("no generator");
+            let mut rng = rng::Rng::new(seed);
+            let mut dist = std::collections::BTreeMap::new();
+            std::fs::create_dir_all(&args[5]).unwrap();
+            for i in 0..n {
+                let mut r = rng.fork();
+                let sc = gen(&mut r, &mut dist, i);
+                std::fs::write(format!("{}/{:04}.txt", args[5], i), sc.join("\n") + "\n").unwrap();
+            }
+        }
         Some("errtable") => {
             print!("{}", tables::error_table_lean());
         }
